@@ -428,13 +428,52 @@ func (e *Env) shadow(op *Op, text, vars string, memo *memoTransport) (out []shad
 				}
 			}
 			kind := kindNames[sc.RPC.Kind]
+			// a follow-up call (@requires, field resolver) of an entity lookup: the positions of the
+			// representations of the entity type it belongs to (what Load hands to mergeWithPath)
+			ents := "none"
+			if sc.RPC.Kind == grpcds.CallKindResolve || sc.RPC.Kind == grpcds.CallKindRequired {
+				if et := entityTypeOf(p, sc.RPC); et != "" {
+					pos := []string{"ents"}
+					for k, r := range reps {
+						if r.Get("__typename").String() == et {
+							pos = append(pos, common.I(k))
+						}
+					}
+					ents = common.L(pos...)
+				}
+			}
 			out = append(out, shadowCall{kind: kind, sexp: common.L("call", kind, pathSexp(sc.RPC.ResponsePath),
 				dumpPlanMessage(&sc.RPC.Response, map[*grpcds.RPCMessage]bool{}), common.I(id), common.L(idx...),
-				common.I(len(reps)), common.QS(sc.MethodName))})
+				common.I(len(reps)), common.QS(sc.MethodName), ents)})
 		}
 		return nil
 	})
 	return out, err
+}
+
+// entityTypeOf: the entity type whose representations a call works on, from the public plan alone: the
+// requested type of an entity lookup, the member type of the key message of a @requires call, and for a
+// field resolver the type of the lookup it (transitively) depends on; "" outside of an entity lookup.
+func entityTypeOf(p *grpcds.RPCExecutionPlan, c *grpcds.RPCCall) string {
+	switch c.Kind {
+	case grpcds.CallKindEntity:
+		return c.RequestedEntityType
+	case grpcds.CallKindRequired:
+		if ctx := c.Request.Fields.ByName("context"); ctx != nil && ctx.Message != nil {
+			if key := ctx.Message.Fields.ByName("key"); key != nil && key.Message != nil && len(key.Message.MemberTypes) == 1 {
+				return key.Message.MemberTypes[0]
+			}
+		}
+	case grpcds.CallKindResolve:
+		for _, id := range c.DependentCalls {
+			for i := range p.Calls {
+				if p.Calls[i].ID == id {
+					return entityTypeOf(p, &p.Calls[i])
+				}
+			}
+		}
+	}
+	return ""
 }
 
 func jsonString(s string) string {
